@@ -66,8 +66,16 @@ _LZMA_FORMAT = lzma.FORMAT_RAW
 _LZMA_DECOMPRESSION_FILTERS: List[Dict[str, int]] = [{"id": lzma.FILTER_LZMA2}]
 
 
+# a raw LZMA2 stream does not record its dictionary size, and the reader decodes with the default one (8MiB):
+#  presets 7-9 would compress with a 16-64MiB dictionary, that the reader can't follow once the data is bigger than 8MiB.
+_LZMA_MAX_DICT_SIZE = 1 << 23
+
+
 def _lzma_compression_filters(dw: int, preset: int) -> List[Dict[str, int]]:
-    return [{"id": lzma.FILTER_LZMA2, "preset": preset, "nice_len": dw}]
+    filters = {"id": lzma.FILTER_LZMA2, "preset": preset, "nice_len": dw}
+    if preset > 6:
+        filters["dict_size"] = _LZMA_MAX_DICT_SIZE
+    return [filters]
 
 
 def _new_garbage_val() -> int:
